@@ -25,6 +25,8 @@ type IG struct {
 	// original If node to its copies.
 	CondOv map[int]ssa.Value
 	Copies map[int][]int
+	// Funcs: Fn, then the helpers spliced into the graph (see inl.go).
+	Funcs []*ssa.Function
 }
 
 // Edge identifies the K-th out-edge of instruction From (for an If: 0 = true
@@ -32,33 +34,64 @@ type IG struct {
 type Edge struct{ From, K int }
 
 func newIG(m *Module, fn *ssa.Function, diverging map[*ssa.Function]bool) *IG {
+	m.anchor(fn)
 	g := &IG{M: m, Fn: fn, Idx: map[ssa.Instruction]int{}, First: map[*ssa.BasicBlock]int{}}
-	for _, b := range fn.Blocks {
-		g.First[b] = len(g.Ins)
-		for _, in := range b.Instrs {
-			g.Idx[in] = len(g.Ins)
-			g.Ins = append(g.Ins, in)
+	// the analysed function, then the private helpers spliced into it
+	g.Funcs = []*ssa.Function{fn}
+	type splice struct {
+		call int
+		h    *ssa.Function
+	}
+	var splices []splice
+	for fi := 0; fi < len(g.Funcs); fi++ {
+		f := g.Funcs[fi]
+		for _, b := range f.Blocks {
+			g.First[b] = len(g.Ins)
+			for _, in := range b.Instrs {
+				n := len(g.Ins)
+				g.Idx[in] = n
+				if _, isRet := in.(*ssa.Return); isRet && fi > 0 {
+					g.Ins = append(g.Ins, &inlRet{in})
+				} else {
+					g.Ins = append(g.Ins, in)
+				}
+				if h := m.helperOf(in); h != nil && !(diverging != nil && diverging[h]) {
+					g.Funcs = append(g.Funcs, h)
+					splices = append(splices, splice{n, h})
+				}
+			}
 		}
 	}
 	g.Succ = make([][]int, len(g.Ins))
-	g.Pred = make([][]int, len(g.Ins))
-	for _, b := range fn.Blocks {
-		base := g.First[b]
-		for i, in := range b.Instrs {
-			n := base + i
-			if i < len(b.Instrs)-1 {
-				if diverging != nil {
-					if cc := callCommon(in); cc != nil {
-						if _, isCall := in.(*ssa.Call); isCall && diverging[m.callee(cc)] {
-							continue // path ends here
+	for _, f := range g.Funcs {
+		for _, b := range f.Blocks {
+			base := g.First[b]
+			for i, in := range b.Instrs {
+				n := base + i
+				if i < len(b.Instrs)-1 {
+					if diverging != nil {
+						if cc := callCommon(in); cc != nil {
+							if _, isCall := in.(*ssa.Call); isCall && diverging[m.callee(cc)] {
+								continue // path ends here
+							}
 						}
 					}
+					g.Succ[n] = []int{n + 1}
+					continue
 				}
-				g.Succ[n] = []int{n + 1}
-				continue
+				for _, s := range b.Succs {
+					g.Succ[n] = append(g.Succ[n], g.First[s])
+				}
 			}
-			for _, s := range b.Succs {
-				g.Succ[n] = append(g.Succ[n], g.First[s])
+		}
+	}
+	for _, sp := range splices {
+		after := g.Succ[sp.call]
+		g.Succ[sp.call] = []int{g.First[sp.h.Blocks[0]]}
+		for _, b := range sp.h.Blocks {
+			last := g.First[b] + len(b.Instrs) - 1
+			if _, ok := g.Ins[last].(*inlRet); ok {
+				g.Succ[last] = after
 			}
 		}
 	}
@@ -277,7 +310,7 @@ func (g *IG) Nodes(pred func(in ssa.Instruction) bool) []int {
 }
 
 func (g *IG) Returns() []int {
-	return g.Nodes(func(in ssa.Instruction) bool { _, ok := in.(*ssa.Return); return ok })
+	return g.Nodes(func(in ssa.Instruction) bool { _, ok := in.(*ssa.Return); return ok && in.Parent() == g.Fn })
 }
 
 // MustPassBefore: every path from the entry to target passes an instruction
@@ -556,7 +589,10 @@ func divergingFuncs(m *Module, haltRoots map[*ssa.Function]bool) map[*ssa.Functi
 			if div[fn] {
 				continue
 			}
+			save := m.anchorOff
+			m.anchorOff = true
 			g := newIG(m, fn, div)
+			m.anchorOff = save
 			r := g.Reach([]int{0}, nil, nil)
 			ret := false
 			for _, n := range g.Returns() {
